@@ -30,7 +30,8 @@ def program_side(rep, tier):
     stack0 = z3.Array("stack_init", z3.BitVecSort(64), z3.BitVecSort(8))
     done = 0
     for stmt in ("d = h1 (hash read)", "h1 = c + 1 (hash write)", "table[5,7] = (d, 9) (Dict update)",
-                 "c = table[5,7].v2 (Dict lookup)"):
+                 "c = table[5,7].v2 (Dict lookup)", "h2 = c (narrow local into a 64-bit cell)",
+                 "h2 = g (signed narrow local into a 64-bit cell)") + tuple(F.C09_ONLY):
         info = F.build(stmt)
         rep.function(f"EBPF program `{stmt}`: assemble() bytes", info["code"].hex())
         ks, vs = info["dict_sizes"]
@@ -50,6 +51,9 @@ def program_side(rep, tier):
         def local(mem, n):
             fmt, rel = info["locals"][n]
             return A.rd_le(mem, A.stack_off(rel), A.FMT_SIZE[fmt])
+        for ob in res.obligations:
+            cond = ob.cond if not isinstance(ob.cond, bool) else z3.BoolVal(ob.cond)
+            add(f"safety[{ob.kind}@slot{ob.slot}]", ob.pc, cond, ob.desc)
         full = [p for p in res.paths if p.exit == "EXIT" and p.ip == last]
         if not full:
             rep.broken.append(f"{stmt}: no path completes the statement")
@@ -73,6 +77,45 @@ def program_side(rep, tier):
                     "cell'(key 1) == c + 1 as a 64-bit value: Python reads it back with format I")
                 add("the_entry_exists_afterwards", path.pc,
                     path.present.get(r, z3.BoolVal(False)) if ok else z3.BoolVal(False), "key 1 is present")
+            elif stmt in F.HASH_VALUES:
+                size, expected = F.HASH_VALUES[stmt]
+
+                class St:
+                    local = staticmethod(lambda n: local(stack0, n))
+                    zext = staticmethod(lambda v, bits: z3.ZeroExt(bits - v.size(), v))
+                    sext = staticmethod(lambda v, bits: z3.SignExt(bits - v.size(), v))
+                r = hash_region_name(78, bytes([info["hashvars"]["h2"][1]]))
+                ok = r in path.regions and path.regions[r].mem is not None
+                add("program_stores_the_value_extended_to_64_bits", path.pc,
+                    A.rd_le(path.regions[r].mem, 0, 8) == expected(St) if ok else z3.BoolVal(False),
+                    "cell(h2)' is the source variable's value extended to 64 bits (Python reads it with format q)")
+            elif stmt.startswith("c = c + h1"):
+                fmt, count = info["hashvars"]["h1"]
+                r = hash_region_name(78, bytes([count]))
+                cell = z3.Array(r + "_init", z3.BitVecSort(64), z3.BitVecSort(8))
+                add("program_reads_the_cell_as_an_operand", path.pc,
+                    local(fstack, "c") == local(stack0, "c") + A.rd_le(cell, 0, 4),
+                    "c' == c + the low four bytes (format I) of the cell stored under key 1, also when the "
+                    "register the lookup returns in is in use")
+            elif stmt.startswith("lookup: h2 = h1"):
+                kb, vb, voff = python_key_value(info, {"k1": 5, "k2": 7}, {"v1": 0, "v2": 0})
+                re = hash_region_name(79, kb)
+                entry = z3.Array(re + "_init", z3.BitVecSort(64), z3.BitVecSort(8))
+                present = z3.Bool(re + "_present")
+                f2, o2 = voff["v2"]
+                r1 = hash_region_name(78, bytes([info["hashvars"]["h1"][1]]))
+                r2 = hash_region_name(78, bytes([info["hashvars"]["h2"][1]]))
+                c1 = z3.Array(r1 + "_init", z3.BitVecSort(64), z3.BitVecSort(8))
+                ok = re in path.regions and path.regions[re].mem is not None and r2 in path.regions \
+                    and path.regions[r2].mem is not None
+                add("a_hash_copy_inside_a_lookup_block_leaves_the_entry_pointer_alone", path.pc + [present],
+                    z3.And(A.rd_le(path.regions[re].mem, o2, 4) == A.rd_le(entry, o2, 4) + 1,
+                           A.rd_le(path.regions[r2].mem, 0, 8) == A.rd_le(c1, 0, 8),
+                           A.rd_le(path.regions[r1].mem, 0, 8) == A.rd_le(c1, 0, 8)
+                           if r1 in path.regions and path.regions[r1].mem is not None else z3.BoolVal(True))
+                    if ok else z3.BoolVal(False),
+                    "with the key present: entry.v2' == entry.v2 + 1 (at its Python offset), cell(h2)' == cell(h1), "
+                    "cell(h1) unchanged")
             elif "Dict update" in stmt:
                 kb, vb, voff = python_key_value(info, {"k1": 5, "k2": 7}, {"v1": 0, "v2": 9})
                 r = hash_region_name(79, kb)
